@@ -3,6 +3,8 @@
 legs
   roundtrip   structured PDUs (all 14 types + unknown types, every field over
               its full valid range) -> encode -> len -> ref decode -> decode
+  setters     one PDU object driven through 1..6 attribute assignments in
+              generated order; structured oracle after every assignment
   bytes       mutated / constructed byte strings: decode is DecodeError or a
               PDU whose re-encoding decodes to an equal PDU; differential
               against the bounded reference decoder
@@ -166,33 +168,41 @@ def fixed(t, **kw):
     return st.fixed_dictionaries(dict(type=st.just(t), **kw))
 
 
-def simple_pdu(maxpay=2175):
+def pdu_types(maxpay=2175):
+    """per-type strategies of PDU spec dicts (insertion order is the order
+    simple_pdu() draws from)"""
     any_sap = dict(dsap=sap, ssap=sap)
     zero = dict(dsap=st.just(0), ssap=st.just(0))
     one = dict(dsap=st.just(1), ssap=st.just(1))
-    return st.one_of(
-        fixed("SYMM", **zero),
-        fixed("PAX", version=opt_(byte), miux=opt_(st.integers(0, 0x7FF)),
-              wks=opt_(st.integers(0, 0xFFFF)), lto=opt_(byte),
-              opt=opt_(st.integers(0, 7)), **zero),
-        fixed("UI", data=payload(maxpay), **any_sap),
-        fixed("CONNECT", miu=miu_, rw=rw_, sn=name_, **any_sap),
-        fixed("DISC", **any_sap),
-        fixed("CC", miu=miu_, rw=rw_, **any_sap),
-        fixed("DM", reason=byte, **any_sap),
-        fixed("FRMR", flags=nib, ptype=nib, ns=nib, nr=nib, vs=nib, vr=nib,
-              vsa=nib, vra=nib, **any_sap),
-        fixed("SNL", sdreq=st.lists(st.tuples(byte, sdreq_name_), max_size=6),
-              sdres=st.lists(st.tuples(byte, st.integers(0, 63)),
-                             max_size=12), **one),
-        fixed("DPS", ecpk=opt_(st.binary(max_size=64)),
-              rn=opt_(st.binary(max_size=8)), **zero),
-        fixed("I", ns=nib, nr=nib, data=payload(maxpay), **any_sap),
-        fixed("RR", nr=nib, **any_sap),
-        fixed("RNR", nr=nib, **any_sap),
-        fixed("U11", payload=payload(64), **any_sap),
-        fixed("U15", payload=payload(64), **any_sap),
-    )
+    return {
+        "SYMM": fixed("SYMM", **zero),
+        "PAX": fixed("PAX", version=opt_(byte),
+                     miux=opt_(st.integers(0, 0x7FF)),
+                     wks=opt_(st.integers(0, 0xFFFF)), lto=opt_(byte),
+                     opt=opt_(st.integers(0, 7)), **zero),
+        "UI": fixed("UI", data=payload(maxpay), **any_sap),
+        "CONNECT": fixed("CONNECT", miu=miu_, rw=rw_, sn=name_, **any_sap),
+        "DISC": fixed("DISC", **any_sap),
+        "CC": fixed("CC", miu=miu_, rw=rw_, **any_sap),
+        "DM": fixed("DM", reason=byte, **any_sap),
+        "FRMR": fixed("FRMR", flags=nib, ptype=nib, ns=nib, nr=nib, vs=nib,
+                      vr=nib, vsa=nib, vra=nib, **any_sap),
+        "SNL": fixed("SNL",
+                     sdreq=st.lists(st.tuples(byte, sdreq_name_), max_size=6),
+                     sdres=st.lists(st.tuples(byte, st.integers(0, 63)),
+                                    max_size=12), **one),
+        "DPS": fixed("DPS", ecpk=opt_(st.binary(max_size=64)),
+                     rn=opt_(st.binary(max_size=8)), **zero),
+        "I": fixed("I", ns=nib, nr=nib, data=payload(maxpay), **any_sap),
+        "RR": fixed("RR", nr=nib, **any_sap),
+        "RNR": fixed("RNR", nr=nib, **any_sap),
+        "U11": fixed("U11", payload=payload(64), **any_sap),
+        "U15": fixed("U15", payload=payload(64), **any_sap),
+    }
+
+
+def simple_pdu(maxpay=2175):
+    return st.one_of(*pdu_types(maxpay).values())
 
 
 def any_pdu():
@@ -229,14 +239,20 @@ def run_roundtrip(s, ctx):
         nt = True
     if nt:
         ctx.nontrivial()
-    p = build(s)
+    e = check_object(build(s), want, repr(s))
+    ctx.note({"encoded": e})
+
+
+def check_object(p, want, what):
+    """the structured oracle: PDU object p is meant to carry the field values
+    `want` (normalised reference dict); returns the encoding"""
     try:
         e = pdu.encode(p)
     except pdu.EncodeError as err:
-        raise Violation("encode-rejects-valid", "%r: %s" % (s, err))
+        raise Violation("encode-rejects-valid", "%s: %s" % (what, err))
     if len(p) != len(e):
-        raise Violation("len-mismatch", "len(pdu)=%d len(encode)=%d %r"
-                        % (len(p), len(e), s))
+        raise Violation("len-mismatch", "len(pdu)=%d len(encode)=%d %s"
+                        % (len(p), len(e), what))
     try:
         r = ref.decode(e)
     except ref.RefReject as rr:
@@ -251,7 +267,7 @@ def run_roundtrip(s, ctx):
     got = observe(q)
     if got != want:
         raise Violation("roundtrip-mismatch", "want %r got %r" % (want, got))
-    ctx.note({"encoded": e})
+    return e
 
 
 def check_bytes(b, ctx=None):
@@ -309,6 +325,199 @@ def run_bytes(case, ctx):
     label = check_bytes(b, ctx)
     ctx.label(label)
     if label != "both-reject":
+        ctx.nontrivial()
+
+
+# attribute histories ----------------------------------------------------
+# A PDU object is not only made by a constructor call: the link layer builds
+# its PAX, SNL, FRMR, I ... PDUs by assigning attributes one after another
+# (llc.py: send_pax.lsc = ..; send_pax.dpc = ..; snl.sdreq.append(..)).  The
+# model below is the reference dict of the *intended* field values, updated by
+# each assignment according to the documented meaning of the attribute.
+BARE = {  # constructor with the mandatory arguments only -> documented defaults
+    "PAX": dict(version=None, miux=None, wks=None, lto=None, opt=None),
+    "UI": dict(data=b""), "CONNECT": dict(miu=128, rw=1, sn=None),
+    "CC": dict(miu=128, rw=1), "DM": dict(reason=0),
+    "FRMR": dict(flags=0, ptype=0, ns=0, nr=0, vs=0, vr=0, vsa=0, vra=0),
+    "SNL": dict(sdreq=[], sdres=[]), "DPS": dict(ecpk=None, rn=None),
+    "I": dict(ns=None, nr=None, data=b""), "RR": dict(nr=None),
+    "AGF": dict(pdus=[]), "DISC": dict(),
+}
+BARE_CLS = {"PAX": pdu.ParameterExchange, "UI": pdu.UnnumberedInformation,
+            "CONNECT": pdu.Connect, "CC": pdu.ConnectionComplete,
+            "DM": pdu.DisconnectedMode, "FRMR": pdu.FrameReject,
+            "SNL": pdu.ServiceNameLookup, "DPS": pdu.DataProtectionSetup,
+            "I": pdu.Information, "RR": pdu.ReceiveReady,
+            "AGF": pdu.AggregatedFrame, "DISC": pdu.Disconnect}
+FIXED_SAP = ("PAX", "AGF", "DPS", "SNL")
+# attribute name on the object -> key of the reference dict
+PLAIN = {"dsap": "dsap", "ssap": "ssap", "data": "data", "payload": "payload",
+         "miu": "miu", "rw": "rw", "sn": "sn", "reason": "reason",
+         "rej_flags": "flags", "rej_ptype": "ptype", "ns": "ns", "nr": "nr",
+         "vs": "vs", "vr": "vr", "vsa": "vsa", "vra": "vra", "ecpk": "ecpk",
+         "rn": "rn", "wks": "wks"}
+
+
+def _set_ops(t):
+    """strategy of one [attribute, value] assignment for PDU type t"""
+    small = st.binary(max_size=40)
+    ops = []
+    if t not in FIXED_SAP:
+        ops += [st.tuples(st.just("dsap"), sap), st.tuples(st.just("ssap"), sap)]
+    if t == "PAX":
+        ops += [st.tuples(st.just("version"), st.tuples(nib, nib)),
+                st.tuples(st.just("miu"), miu_),
+                st.tuples(st.just("wks"), st.integers(0, 0xFFFF)),
+                st.tuples(st.just("lto"),
+                          st.integers(0, 255).map(lambda x: 10 * x)),
+                st.tuples(st.just("lsc"), st.integers(0, 3)),
+                st.tuples(st.just("dpc"), st.sampled_from([0, 1, 1, True,
+                                                           False]))] * 2
+    elif t == "UI":
+        ops += [st.tuples(st.just("data"), payload(300))]
+    elif t in ("CONNECT", "CC"):
+        ops += [st.tuples(st.just("miu"), miu_), st.tuples(st.just("rw"), rw_)]
+        if t == "CONNECT":
+            ops += [st.tuples(st.just("sn"), name_)]
+    elif t == "DM":
+        ops += [st.tuples(st.just("reason"), byte)]
+    elif t == "FRMR":
+        ops += [st.tuples(st.sampled_from(["rej_flags", "rej_ptype", "ns", "nr",
+                                           "vs", "vr", "vsa", "vra"]), nib)] * 3
+    elif t == "SNL":
+        req = st.tuples(byte, sdreq_name_)
+        res = st.tuples(byte, st.integers(0, 63))
+        ops += [st.tuples(st.just("sdreq"), st.lists(req, max_size=3)),
+                st.tuples(st.just("sdres"), st.lists(res, max_size=4)),
+                st.tuples(st.just("sdreq+"), req),
+                st.tuples(st.just("sdres+"), res)]
+    elif t == "DPS":
+        ops += [st.tuples(st.just("ecpk"), opt_(st.binary(max_size=64))),
+                st.tuples(st.just("rn"), opt_(st.binary(max_size=8)))]
+    elif t == "I":
+        ops += [st.tuples(st.just("ns"), nib), st.tuples(st.just("nr"), nib),
+                st.tuples(st.just("data"), payload(300))]
+    elif t in ("RR", "RNR"):
+        ops += [st.tuples(st.just("nr"), nib)] * 2
+    elif t == "AGF":
+        ops += [st.tuples(st.just("append"), simple_pdu(40))]
+    elif t.startswith("U"):
+        ops += [st.tuples(st.just("payload"), small)]
+    return st.one_of(*ops)
+
+
+SET_TYPES = ["PAX", "PAX", "PAX", "PAX", "UI", "CONNECT", "CONNECT", "DISC",
+             "CC", "DM", "FRMR", "FRMR", "SNL", "SNL", "DPS", "I", "I", "RR",
+             "RNR", "AGF", "U11"]
+_SET_INIT = pdu_types(300)
+_SET_INIT["AGF"] = fixed("AGF", dsap=st.just(0), ssap=st.just(0),
+                         pdus=st.lists(simple_pdu(40), max_size=3))
+_SET_OPS = dict((t, _set_ops(t)) for t in set(SET_TYPES))
+
+
+@st.composite
+def setter_case(draw):
+    t = draw(st.sampled_from(SET_TYPES))
+    start = draw(st.sampled_from(["ctor", "ctor", "decoded", "bare"]))
+    if start == "bare" and t not in BARE:
+        start = "ctor"
+    return {"type": t, "start": start, "init": draw(_SET_INIT[t]),
+            "ops": draw(st.lists(_SET_OPS[t], min_size=1, max_size=6))}
+
+
+def _assign(p, model, attr, val):
+    """one assignment on the object and what it means for the field values"""
+    if attr == "version":        # (major, minor) -> VERSION TLV major|minor
+        p.version = (val[0], val[1])
+        model["version"] = val[0] << 4 | val[1]
+    elif attr == "miu" and model["type"] == "PAX":   # MIUX TLV is MIU - 128
+        p.miu = val
+        model["miux"] = val - 128
+    elif attr == "lto":          # milliseconds -> LTO TLV in units of 10 ms
+        p.lto = val
+        model["lto"] = val // 10
+    elif attr == "lsc":          # OPT TLV bits 1..0, DPC (bit 2) unaffected
+        p.lsc = val
+        model["opt"] = ((model["opt"] or 0) & 4) | val
+    elif attr == "dpc":          # OPT TLV bit 2, LSC unaffected
+        p.dpc = val
+        model["opt"] = ((model["opt"] or 0) & 3) | (4 if val else 0)
+    elif attr == "sdreq":
+        p.sdreq = [(tid, bytes(sn)) for tid, sn in val]
+        model["sdreq"] = [[tid, bytes(sn)] for tid, sn in val]
+    elif attr == "sdres":
+        p.sdres = [(tid, addr) for tid, addr in val]
+        model["sdres"] = [[tid, addr] for tid, addr in val]
+    elif attr == "sdreq+":
+        p.sdreq.append((val[0], bytes(val[1])))
+        model["sdreq"] = model["sdreq"] + [[val[0], bytes(val[1])]]
+    elif attr == "sdres+":
+        p.sdres.append((val[0], val[1]))
+        model["sdres"] = model["sdres"] + [[val[0], val[1]]]
+    elif attr == "append":
+        p.append(build(val))
+        model["pdus"] = model["pdus"] + [norm(val)]
+    else:
+        setattr(p, attr, val)
+        model[PLAIN[attr]] = val
+
+
+def _check_getters(p, model, what):
+    """PAX attribute getters report the values that were put in"""
+    if model["type"] != "PAX":
+        return
+    want = {}
+    if model["version"] is not None:
+        want["version"] = (model["version"] >> 4, model["version"] & 15)
+    if model["miux"] is not None:
+        want["miu"] = model["miux"] + 128
+    if model["wks"] is not None:
+        want["wks"] = model["wks"]
+    if model["lto"] is not None:
+        want["lto"] = model["lto"] * 10
+    if model["opt"] is not None:
+        want["lsc"] = model["opt"] & 3
+        want["dpc"] = model["opt"] >> 2 & 1
+    got = dict((k, getattr(p, k)) for k in want)
+    if got != want:
+        raise Violation("getter-mismatch", "%s: attributes read %r, the values "
+                        "assigned are %r" % (what, got, want))
+
+
+def run_setters(case, ctx):
+    t, init = case["type"], case["init"]
+    ctx.set_class(t + "/" + case["start"])
+    ctx.label("type:" + t)
+    ctx.label("start:" + case["start"])
+    if case["start"] == "ctor":
+        p, model = build(init), norm(init)
+    elif case["start"] == "decoded":
+        model = norm(init)
+        p = pdu.decode(ref.encode(model))
+    else:
+        sap_ = [] if t in ("PAX", "AGF") else [init["dsap"], init["ssap"]]
+        p = BARE_CLS[t](*sap_)
+        model = dict(BARE[t], type=t, dsap=init["dsap"], ssap=init["ssap"])
+    first = dict(model)
+    trail = [case["start"]]
+    for attr, val in case["ops"]:
+        _assign(p, model, attr, val)
+        trail.append("%s=%r" % (attr, val if attr != "append" else val["type"]))
+        what = "%s after %s" % (t, "; ".join(trail))
+        want = norm(model)
+        if None in (want.get("ns", 0), want.get("nr", 0)):
+            # a numbered PDU whose sequence numbers were never given has no
+            # encoding: EncodeError is the documented answer
+            try:
+                e = pdu.encode(p)
+            except pdu.EncodeError:
+                ctx.label("incomplete-rejected")
+                continue
+            raise Violation("encodes-incomplete", "%s -> %s" % (what, e.hex()))
+        _check_getters(p, model, what)
+        check_object(p, want, what)
+    ctx.label("ops:%d" % len(case["ops"]))
+    if len(case["ops"]) >= 2 and norm(model) != norm(first):
         ctx.nontrivial()
 
 
@@ -595,6 +804,21 @@ LEGS = [
              "field ranges (RW 0..15, MIU 128..2175, SAP 0..63, names <=255 B, "
              "AGF of up to 20 PDUs); non-trivial = carries an optional TLV, a "
              "payload or sequence/reason fields; distinct by case hash."),
+    Leg("setters", run=run_setters, gen=lambda tier: setter_case(),
+        quick=3000, thorough=150000, shards_quick=4, shards_thorough=16,
+        nt_floor=0.4,
+        rule="one PDU object per case, made by its constructor (field values "
+             "from the roundtrip strategies), by the constructor with the "
+             "mandatory arguments only, or by decode(); then 1..6 attribute "
+             "assignments in generated order through the public attributes "
+             "(PAX version/miu/wks/lto/lsc/dpc, CONNECT/CC miu/rw/sn, SNL "
+             "sdreq/sdres assignment and append, FRMR fields, I/RR/RNR "
+             "ns/nr/data, DM reason, DPS ecpk/rn, AGF append, dsap/ssap); "
+             "after EVERY assignment the structured oracle (encode, len, "
+             "reference decode, decode) against a model dict of the intended "
+             "values, PAX getters read back; non-trivial = at least two "
+             "assignments and the intended values differ from the initial "
+             "ones."),
     Leg("bytes", run=run_bytes, gen=gen_bytes, quick=3000, thorough=200000,
         shards_quick=4, shards_thorough=16, nt_floor=0.2,
         rule="mutations of reference encodings, AGF frames built from raw "
